@@ -221,6 +221,7 @@ func stripSupports(n *core.N) {
 // smallFirst: the first cases of a run are small, so that the first violations reported
 // (bin/check keeps the first five) are already near-minimal.
 var smallFirst = false
+var manyTaxa = false
 
 func refTree(c *core.Ctx) *core.N {
 	g := c.G
@@ -228,6 +229,9 @@ func refTree(c *core.Ctx) *core.N {
 	o.MinTips, o.MaxTips = 4, c.Scale(11, 16)
 	if smallFirst {
 		o.MaxTips = 6
+	} else if manyTaxa {
+		// more taxa than one 64-bit word of the bitsets holds
+		o.MinTips, o.MaxTips = 66, 72
 	} else if !c.Quick() && g.Chance(0.03) {
 		o.MaxTips = 40
 	}
@@ -376,6 +380,14 @@ func channel(boots []*core.N) chan tree.Trees {
 	return ch
 }
 
+// errClass tells the taxon-set error of CompareTipIndexes (tree/tree.go:755) from any other.
+func errClass(msg string) string {
+	if strings.Contains(msg, "do not have the same tip names") || strings.Contains(msg, "do not have the same number of tips") {
+		return "err:taxa"
+	}
+	return "err:other"
+}
+
 // guarded runs f with a watchdog; a panic in the calling goroutine is caught.
 func guarded(f func() error) (string, bool) {
 	type res struct {
@@ -389,7 +401,7 @@ func guarded(f func() error) (string, bool) {
 			return
 		}
 		if err != nil {
-			done <- res{"err"}
+			done <- res{errClass(err.Error())}
 			return
 		}
 		done <- res{"ok"}
@@ -648,7 +660,7 @@ func cliRun(c *core.Ctx, which, refFile, bootFile string, threads int) result {
 	}
 	if r.Exit != 0 {
 		if r.Exit == 1 {
-			return result{out: "err"}
+			return result{out: errClass(r.Stderr)}
 		}
 		return result{out: fmt.Sprintf("panic:exit%d", r.Exit)}
 	}
@@ -858,7 +870,7 @@ func cliLog(c *core.Ctx, ref *core.N, boots []*core.N, cutoff float64) {
 		timeouts++
 		res.out = "timeout"
 	case r.Exit == 1:
-		res.out = "err"
+		res.out = errClass(r.Stderr)
 	case r.Exit != 0:
 		res.out = fmt.Sprintf("panic:exit%d", r.Exit)
 	default:
@@ -969,8 +981,9 @@ func doInv(c *core.Ctx, ref1 *core.N, boots1 []*core.N, ref2 *core.N, boots2 []*
 // the files as the binary reads them (cmd/root.go readTree / readTrees)
 
 type fileItem struct {
-	kind string  // "T" tree, "B" blank line, "J" unterminated text
-	tree *core.N // for "T": the tree as gotree's parser reads the line
+	kind string    // "T" tree, "B" blank line, "J" unterminated text, "L" several trees on one line
+	tree *core.N   // for "T": the tree as gotree's parser reads the line
+	more []*core.N // for "L": the other trees of the line
 	text string
 }
 
@@ -979,6 +992,11 @@ func itemsField(items []fileItem) string {
 	for _, it := range items {
 		if it.kind == "T" {
 			b.WriteString(it.tree.Dump())
+		} else if it.kind == "L" {
+			b.WriteString("L" + it.tree.Dump())
+			for _, m := range it.more {
+				b.WriteString("^" + m.Dump())
+			}
 		} else {
 			b.WriteString(it.kind)
 		}
@@ -1025,6 +1043,23 @@ func parseItemsField(s string) []fileItem {
 			out = append(out, fileItem{kind: "B", text: "\n"})
 		case x == "J":
 			out = append(out, fileItem{kind: "J", text: "(a,b\n"})
+		case strings.HasPrefix(x, "L"):
+			var it fileItem
+			for i, d := range strings.Split(x[1:], "^") {
+				n, err := core.ParseDump(d)
+				if err != nil {
+					panic(err)
+				}
+				one := treeItem(n)
+				if i == 0 {
+					it = one
+					it.kind = "L"
+				} else {
+					it.more = append(it.more, one.tree)
+					it.text = strings.TrimSuffix(it.text, "\n") + " " + one.text
+				}
+			}
+			out = append(out, it)
 		default:
 			n, err := core.ParseDump(x)
 			if err != nil {
@@ -1070,13 +1105,28 @@ func cliFilesCase(c *core.Ctx) {
 			for g.Chance(0.4) {
 				bootItems = append(bootItems, blankItem(g))
 			}
-			bootItems = append(bootItems, treeItem(b))
+			it := treeItem(b)
+			if g.Chance(0.08) {
+				// more trees on the same line: all read (since 3850fd2)
+				it.kind = "L"
+				for n := 1 + g.Intn(2); n > 0; n-- {
+					other := treeItem(boots[g.Intn(k)])
+					it.more = append(it.more, other.tree)
+					it.text = strings.TrimSuffix(it.text, "\n") + " " + other.text
+				}
+			}
+			bootItems = append(bootItems, it)
 		}
 		for g.Chance(0.4) {
 			bootItems = append(bootItems, blankItem(g))
 		}
 		if sp == 1 {
 			bootItems = append(bootItems, fileItem{kind: "J", text: "(a,b\n"})
+		}
+		if sp == 2 && len(bootItems) > 0 {
+			// unterminated text in the middle: it spoils the next tree, the reader stops there
+			at := g.Intn(len(bootItems))
+			bootItems = append(bootItems[:at], append([]fileItem{{kind: "J", text: "(a,b\n"}}, bootItems[at:]...)...)
 		}
 	}
 	threads := 1
@@ -1141,7 +1191,7 @@ func Replay(c *core.Ctx, lines []string) {
 			// a race does not show on every run: repeat until the outcome is not the expected one (at most 20 times)
 			for rep := 0; rep < 20; rep++ {
 				fo, to := probeSup(c, mode, threads, ref, parseDumps(f[4]))
-				if rep == 19 || fo != "err" || to != "err" {
+				if rep == 19 || !strings.HasPrefix(fo, "err") || !strings.HasPrefix(to, "err") {
 					doSupN(c, mode, threads, ref, parseDumps(f[4]))
 					break
 				}
@@ -1235,14 +1285,10 @@ func rejectionSeries(c *core.Ctx, mode string, ref *core.N, boots []*core.N) {
 	}
 	positions := []int{0, len(valid)}
 	if mode == "lib" {
-		if c.Quick() {
-			// first, last and two positions in between
-			positions = append(positions, g.Intn(len(valid)+1), g.Intn(len(valid)+1))
-		} else {
-			positions = positions[:0]
-			for p := 0; p <= len(valid); p++ {
-				positions = append(positions, p)
-			}
+		// every position
+		positions = positions[:0]
+		for p := 0; p <= len(valid); p++ {
+			positions = append(positions, p)
 		}
 	}
 	for _, pos := range positions {
@@ -1265,7 +1311,7 @@ func genCase(c *core.Ctx, mode string) {
 	ref := refTree(c)
 	funnyOK = false
 	k := 1 + g.Intn(c.Scale(5, 8))
-	if smallFirst {
+	if smallFirst || manyTaxa {
 		k = 1 + g.Intn(2)
 	} else if !c.Quick() && mode == "lib" && g.Chance(0.02) {
 		k = 15 + g.Intn(15)
@@ -1351,6 +1397,10 @@ func genCase(c *core.Ctx, mode string) {
 	threads := 1
 	if !special && k > 0 && g.Chance(0.2) {
 		threads = threadChoices[g.Intn(len(threadChoices))]
+		if g.Chance(0.15) {
+			// a count below 1 means one thread (4aac0a9; regression corpus/C10-nonpositive-threads.txt)
+			threads = -g.Intn(2)
+		}
 	}
 	f, t := doSupN(c, mode, threads, ref, boots)
 	if mismatch && !special {
@@ -1386,12 +1436,13 @@ func Run(c *core.Ctx) {
 		Replay(c, core.ReadRequests(c.Arg))
 		return
 	}
-	n := c.Scale(400, 4000)
+	n := c.Scale(400, 3200)
 	for i := 0; i < n && timeouts < maxTimeouts; i++ {
 		smallFirst = i < n/8
+		manyTaxa = !smallFirst && (i%(n/3) == n/6 || (!c.Quick() && c.G.Chance(0.004))) // three inputs per run, more in the thorough tier
 		genCase(c, "lib")
 	}
-	smallFirst = false
+	smallFirst, manyTaxa = false, false
 	if c.Gotree != "" {
 		m := c.Scale(25, 200)
 		for i := 0; i < m && timeouts < maxTimeouts; i++ {
